@@ -37,6 +37,8 @@ func main() {
 	var all []rl.Scenario
 	all = append(all, rl.LockOrder(rng, a.Thorough())...)
 	all = append(all, rl.BeforeRunning(rng, a.Thorough())...)
+	all = append(all, rl.PollingClose(rng, a.Thorough())...)
+	all = append(all, rl.DuplicateAdd(rng, a.Thorough())...)
 	all = append(all, rl.NegativeTimeout(rng, a.Thorough())...)
 	all = append(all, rl.CloseFails(rng, a.Thorough())...)
 	all = append(all, rl.SubscribeRetry(rng, a.Thorough())...)
